@@ -132,29 +132,49 @@ def syn_conversion_rules(ctx, P):
         ctx.ob(P + ".multi-shape", f.key, "flatten + combine", len(fl) == 1 and len(comb_deep) == 1, "%d flatten, %d combine" % (len(fl), len(comb_deep)))
         for blk, t in fl + [(blk, t) for blk, t, _ in comb_deep]:
             ctx.requires(P + ".multi-flattens", M, blk, "flatten/combine", [("ne", r"^darling_core::error::Error::len\(a1\)$", 1)])
+        # the leaves: flatten(a1).into_iter(), converted either all at once (`.map(syn::Error::from)`)
+        # or one by one where they are used
+        FROM = r"(?:[\w:<]*From<darling_core::error::Error>(?: for syn::error::Error)?>::from|(?:darling_core::error::)?<impl core::convert::From<darling_core::error::Error> for syn::error::Error>::from)"
+        norm = lambda x: x.replace("<darling_core::error::Error as core::iter::traits::collect::IntoIterator>::", "")
+        mp = [(b2, t2) for b2, t2 in ctx.find_calls(M, r"Iterator(>)?::map$") if "into_iter(darling_core::error::Error::flatten(a1))" in norm(ctx.expr(M, t2["args"][0]))]
+        mapped = len(mp) == 1 and re.search(FROM, ctx.expr(M, mp[0][1]["args"][1])) is not None
+        IT = r"into_iter\(darling_core::error::Error::flatten\(a1\)\)"
+        conv = lambda x: re.search(FROM + r"\($", x) is not None
         for blk, t, owner in comb_deep:
+            args = [norm(ctx.expr(owner, a)) for a in t["args"]]
             if owner is M:
-                continue
-            # the same accumulation written as `iter.fold(first, |mut acc, next| { acc.combine(next); acc })`
-            folds = [(b2, t2) for b2, t2 in ctx.find_calls(M, r"Iterator(>)?::fold$") if owner.key in ctx.expr(M, t2["args"][2])]
-            args = [ctx.expr(owner, a) for a in t["args"]]
-            crets = ctx.ret_values(owner)
-            ok = len(folds) == 1 and args == ["a2", "a3"] and crets == ["a2"]
-            ctx.ob(P + ".combine-each-leaf", f.key, "fold(first, |acc, next| acc.combine(next))", ok, "fold calls %d, combine%s, closure returns %s" % (len(folds), args, crets))
-            if folds:
-                it = ctx.expr(M, folds[0][1]["args"][0])
-                ctx.ob(P + ".combine-in-loop", f.key, "combine repeated for every remaining leaf", re.search(r"Iterator(>)?::map\(", it) is not None and "flatten(a1)" in it, "fold over %s" % it[:160])
-        if comb:
-            blk, t = comb[0]
-            a1 = ctx.expr(M, t["args"][1])
-            ctx.ob(P + ".combine-each-leaf", f.key, "combine(next leaf)", "Iterator>::next(" in a1 and "as Some).0" in a1, "combines %s" % a1[:140])
-            # combine sits in a loop over the same iterator
-            heads = [h for h in M.normal_blocks() for lab, tb in M.succ_edges(h) if False]
-            inloop = blk in M.reachable(t["target"], False) if t["target"] is not None else False
-            ctx.ob(P + ".combine-in-loop", f.key, "combine repeated for every remaining leaf", inloop, "combine must be inside the loop over the flattened iterator")
-        mp = ctx.find_calls(M, r"Iterator>::map")
-        ok = len(mp) == 1 and "into_iter(darling_core::error::Error::flatten(a1))" in ctx.expr(M, mp[0][1]["args"][0]).replace("<darling_core::error::Error as core::iter::traits::collect::IntoIterator>::", "") and "::from" in ctx.expr(M, mp[0][1]["args"][1])
-        ctx.ob(P + ".one-diagnostic-per-leaf", f.key, "flatten().into_iter().map(syn::Error::from)", ok, "map(%s)" % [[ctx.expr(M, a)[:120] for a in t["args"]] for _, t in mp])
+                # a loop over the iterator
+                e2 = args[1]
+                elem = re.search(r"Iterator>::next\(.*" + IT + r".*\) as Some\)\.0\)?$", e2) is not None
+                ok = elem and (mapped or re.match(r"^" + FROM + r"\(", e2) is not None)
+                ctx.ob(P + ".combine-each-leaf", f.key, "combine(next leaf)", ok, "combines %s (iterator %s)" % (e2[:160], "mapped" if mapped else "not mapped"))
+                inloop = blk in M.reachable(t["target"], False) if t["target"] is not None else False
+                ctx.ob(P + ".combine-in-loop", f.key, "combine repeated for every remaining leaf", inloop, "combine must be inside the loop over the flattened iterator")
+            else:
+                # the same accumulation written as `iter.fold(first, |mut acc, next| { acc.combine(next); acc })`
+                folds = [(b2, t2) for b2, t2 in ctx.find_calls(M, r"Iterator(>)?::fold$") if owner.key in ctx.expr(M, t2["args"][2])]
+                crets = ctx.ret_values(owner)
+                leaf = args[1] == "a3" if mapped else re.match(r"^" + FROM + r"\(a3\)$", args[1]) is not None
+                ok = len(folds) == 1 and args[0] == "a2" and leaf and crets == ["a2"]
+                ctx.ob(P + ".combine-each-leaf", f.key, "fold(first, |acc, next| acc.combine(next))", ok, "fold calls %d, combine%s, closure returns %s (iterator %s)" % (len(folds), args, crets, "mapped" if mapped else "not mapped"))
+                if folds:
+                    it = norm(ctx.expr(M, folds[0][1]["args"][0]))
+                    ok = re.search(IT, it) is not None and (re.search(r"Iterator(>)?::map\(", it) is not None) == mapped
+                    ctx.ob(P + ".combine-in-loop", f.key, "combine repeated for every remaining leaf", ok, "fold over %s" % it[:160])
+                    # the accumulator starts from the first leaf, converted
+                    init = norm(ctx.expr(M, folds[0][1]["args"][1]))
+                    ok = re.search(r"Iterator>::next\(.*" + IT, init) is not None and (mapped or re.search(FROM, init) is not None)
+                    ctx.ob(P + ".combine-each-leaf", f.key, "fold starts from the first leaf", ok, "initial value %s" % init[:200])
+        if mapped:
+            ok = True
+            detail = "map(%s)" % [[ctx.expr(M, a)[:120] for a in t["args"]] for _, t in mp]
+        else:
+            # no blanket map: every place that takes a leaf from the iterator converts it
+            takes = [norm(ctx.expr(o, t2["args"][0])) for _, t2, o in ctx.find_calls_deep(M, r"^" + FROM + "$")]
+            takes += [norm(ctx.expr(M, t2["args"][0])) for _, t2 in ctx.find_calls(M, r"Option::<T>::map$") if re.search(FROM, ctx.expr(M, t2["args"][1]))]
+            ok = not mp and len(takes) >= 2
+            detail = "leaf conversions at %s" % [x[:100] for x in takes]
+        ctx.ob(P + ".one-diagnostic-per-leaf", f.key, "flatten().into_iter().map(syn::Error::from)", ok, detail)
 
 
 def run(ctx):
@@ -168,7 +188,16 @@ def run(ctx):
                 ok1 = all(ctx._sat(d, ("ne", r"^discr\(self\)$", "Multiple")) for d in pc)
             elif "::sum(" in e:
                 ok2 = all(ctx._sat(d, r"discr\(self\)=Multiple$") for d in pc) and "fn darling_core::error::Error::len" in e and "(self as Multiple).0" in e
-        ctx.ob("C04.len.leaf-is-one", f.key, "return 1", ok1 and len(rs) == 2, "returns %s" % [(e[:80], [sorted(d) for d in pc]) for _, e, pc in rs])
+        if not ok2:
+            # the same sum as a loop: `let mut n = 0; for e in items { n += e.len() }`
+            adds = [(e, pc) for blk, e, pc in rs if e.startswith("AddWithOverflow(")]
+            zero = [(e, pc) for blk, e, pc in rs if e == "0_usize"]
+            ok2 = len(adds) == 1 and len(zero) == 1 and len(rs) == 3 \
+                and re.search(r"darling_core::error::Error::len\(\(.*Iterator>::next\(.*\(self as Multiple\)\.0\)+ as Some\)\.0\)", adds[0][0]) is not None \
+                and all(ctx._sat(d, r"discr\(self\)=Multiple$") for e, pc in adds + zero for d in pc)
+            if ok2:
+                rs = [r for r in rs if r[1] == "1_usize"] + [None]
+        ctx.ob("C04.len.leaf-is-one", f.key, "return 1", ok1 and len(rs) == 2, "returns %s" % [(r[1][:80], [sorted(d) for d in r[2]]) for r in rs if r])
         ctx.ob("C04.len.bundle-sums-children", f.key, "return sum(map(Error::len))", ok2, "the Multiple arm must sum Error::len over its own vector")
     f = ctx.fn(E + "len")
     if f:
